@@ -116,8 +116,39 @@ class GenericWorld:
             return int(abs(v) * 1e6) % m
         return np.float32(self.scale * v)
 
+    def _rand(self, name, out, ops, keypos, x):
+        """PRNG stubs: respect the documented contracts"""
+        (s, d), = out
+        rng = np.random.default_rng(_h(self.seed, name, x.tobytes()) % (2 ** 32))
+        if name == "RAND_u01":
+            return [rng.random(s).astype(np.float32) * np.float32(0.999)]
+        if name == "RAND_normal":
+            return [rng.normal(size=s).astype(np.float32)]
+        if name == "RAND_exponential":
+            return [rng.exponential(size=s).astype(np.float32)]
+        if name == "RAND_gumbel":
+            return [np.clip(rng.gumbel(size=s), -5, 90).astype(np.float32)]
+        if name == "RAND_randint":
+            lo, hi = np.asarray(ops[1]), np.asarray(ops[2])
+            return [(lo + (rng.integers(0, 1 << 30, size=s) % np.maximum(hi - lo, 1))).astype(np.int32)]
+        if name == "RAND_permutation":
+            return [rng.permutation(s[0]).astype(np.int32)]
+        if name.startswith("RAND_choice"):
+            p = np.asarray(ops[1], dtype=np.float64)
+            p = np.where(p > 0, p, 0)
+            p = p / p.sum() if p.sum() > 0 else np.full(p.shape, 1.0 / p.shape[0])
+            k = int(np.prod(s)) if s else 1
+            r = rng.choice(p.shape[0], size=k, replace=name.endswith("_repl"), p=p)
+            return [np.asarray(r, dtype=np.int32).reshape(s)]
+        return None
+
     def apply(self, name, out, ops, keypos, int_mod):
         x = self._feat(ops, keypos)
+        if name.startswith("RAND_"):
+            r = self._rand(name, out, ops, keypos, x)
+            if r is not None:
+                self.calls.append((name, [np.asarray(o).copy() for o in ops], r))
+                return r
         res = []
         for oi, (s, d) in enumerate(out):
             a = np.empty(s, dtype=np.dtype(d))
